@@ -2,6 +2,7 @@ import OpusProofs.DecSkelApi
 import OpusProofs.DecSkelMs
 import OpusProofs.DecSkelMsFull
 import OpusProofs.DecSkelRanges
+import OpusProofs.DecSkelShift
 /-
   Property C01 — "Decoding is total and memory-safe for arbitrary packets and call histories".
 
@@ -415,5 +416,34 @@ theorem nativeRet_depends_on_parse (st : DecState) (bs1 bs2 : Bytes) (sd1 sd2 : 
     unfold samplesPerFrame
     rw [e1, e2, e3]
   simp only [Option.getD_some, Int.toNat_natCast, List.take_length, h1, h2, hspf, hcount]
+
+/-- `opus_decode_native` depends on the packet only through what the parser reports (two-run simulation).  Two byte
+    strings whose parses report the same frame sizes and count and whose TOC bytes agree up to the frame-count code
+    (`toc / 4`) — a packet and its padded / unpadded / repacketised form — decoded from the same state with the same
+    arguments, by DSP oracles that answer identically when the frame offset they are shown is shifted by
+    `d = payloadOffset₂ − payloadOffset₁` ("the DSP reads the same frame bytes at a shifted address";
+    `OracleShift`: `o2.celt k (a.shiftOff d) = o1.celt k a`, SILK / symbol oracles equal): the same return value, the
+    same final decoder state and oracle-call counter, and the same inner-call / access log up to the shift of the logged
+    packet offsets (`shiftRun d`: `ec_dec_init` offset and CELT data offset `+ d`; PCM pointers untouched).  Purely
+    equational — no invariant, no contract; `packet_offset` itself of course differs. -/
+theorem decodeNative_depends_on_parse (o1 o2 : Oracle) (bs1 bs2 : Bytes) (sd1 sd2 : Bool) (p1 p2 : Parsed)
+    (hp1 : parseImpl sd1 bs1 = .ok p1) (hp2 : parseImpl sd2 bs2 = .ok p2) (hsizes : p1.sizes = p2.sizes)
+    (hcount : p1.count = p2.count) (htoc : bs1.headD 0 / 4 = bs2.headD 0 / 4)
+    (h : OracleShift o1 o2 ((p2.payloadOffset : Int) - (p1.payloadOffset : Int)))
+    (pcm : Ptr) (frame_size fec : Int) (sc : Bool) (r : Run) :
+    (decodeNative o2 (some bs2) bs2.length pcm frame_size fec sd2 sc
+        (shiftRun ((p2.payloadOffset : Int) - (p1.payloadOffset : Int)) r)).ret =
+      (decodeNative o1 (some bs1) bs1.length pcm frame_size fec sd1 sc r).ret ∧
+    (decodeNative o2 (some bs2) bs2.length pcm frame_size fec sd2 sc
+        (shiftRun ((p2.payloadOffset : Int) - (p1.payloadOffset : Int)) r)).run =
+      shiftRun ((p2.payloadOffset : Int) - (p1.payloadOffset : Int)) (decodeNative o1 (some bs1) bs1.length pcm frame_size fec sd1 sc r).run :=
+  decodeNative_shift bs1 bs2 sd1 sd2 p1 p2 hp1 hp2 hsizes hcount htoc h pcm frame_size fec sc r
+
+/-- Non-vacuity: an oracle that does not look at offsets is shift-related to itself for every `d`; a code-0 packet and
+    its code-3 padded form parse to the same frame list at payload offsets 1 and 3. -/
+example (d : Int) : OracleShift exOracle exOracle d :=
+  { silk := fun _ _ => rfl, celt := fun _ _ => rfl, bit := fun _ _ _ => rfl, uint := fun _ _ _ => rfl }
+example : parseImpl false [120, 1, 2, 3] = .ok ⟨120, 1, [3], 1, 0, 4⟩ ∧
+    parseImpl false [123, 65, 2, 1, 2, 3, 0, 0] = .ok ⟨123, 1, [3], 3, 2, 8⟩ ∧ (120 : Nat) / 4 = 123 / 4 := by decide
 
 end OpusProps.C01
